@@ -138,9 +138,15 @@ def results_digest():
     for name in c0910lib.SK:
         p, e = c0910lib.plan_or_error(c0910lib.text(name, (), (), ()), PL.catalog(api=True, ts=True))
         out['plan|%s' % name] = h(p.steps if p else e)
+        p2, e2 = c0910lib.plan_or_error(c0910lib.text(name, (), (), ()), PL.catalog(api=True, ts=True))
+        if h(p2.steps if p2 else e2) != out['plan|%s' % name]:
+            out['repeat-differs|plan|%s' % name] = [repr(p.steps if p else e)[:600], repr(p2.steps if p2 else e2)[:600]]
     for i in range(0, len(c0910lib.GEN), 5):
         p, e = c0910lib.plan_or_error(c0910lib.text(i, (), (), ()), PL.catalog())
         out['plan|gen%d' % i] = h(p.steps if p else e)
+        p2, e2 = c0910lib.plan_or_error(c0910lib.text(i, (), (), ()), PL.catalog())
+        if h(p2.steps if p2 else e2) != out['plan|gen%d' % i]:
+            out['repeat-differs|plan|gen%d' % i] = [repr(p.steps if p else e)[:600], repr(p2.steps if p2 else e2)[:600]]
     for name, (tmpl, k) in c12lib.SKELETONS.items():
         for full in (True, False):
             mask = tuple([full] * k)
@@ -346,6 +352,8 @@ def run(tier):
         diff = sorted(k for s_ in HASH_SEEDS[1:] for k in set(base) | set(outs[s_]) if base.get(k) != outs[s_].get(k))
         run.extra['hash_seed_sample'] = {'seeds': list(HASH_SEEDS), 'results_compared': len(base), 'equal': not diff, 'note': 'sampling of %d process configurations, not a solver verdict' % len(HASH_SEEDS)}
         run.validated += len(base) * (len(HASH_SEEDS) - 1)
+        for k in sorted(k for k in base if k.startswith('repeat-differs|'))[:3]:
+            run.counterexample('same-input-twice:%s' % k.split('|')[1], 'planning the same statement twice in one process gives different plans (%s)' % k, {'what': k, 'results': base[k]}, True)
         if 'ERR' in base or any('ERR' in outs[s_] for s_ in HASH_SEEDS):
             run.extra['hash_seed_sample']['note'] += '; a child interpreter failed: %s' % [outs[s_].get('ERR') for s_ in HASH_SEEDS]
         elif diff:
